@@ -105,10 +105,11 @@ def check(case):
     elif sub == "dt_counter":
         X = rows[:, col["X"]]
         d = np.diff(X)[1:]
-        if np.any(d != 1):
-            k = int(np.argmax(d != 1)) + 1
+        inc = float(case.get("increment", 1.0))
+        if np.any(d != inc):
+            k = int(np.argmax(d != inc)) + 1
             res.fail(("dt_rule_steps", mode, "with_reactions" if case.get("dynamic") else "no_reactions") + (("parameter_target",) if case.get("target") == "parameter" else ()),
-                     row=k + 1, increment=float(X[k + 1] - X[k]), expected=1.0, column=[float(x) for x in X[:8]])
+                     row=k + 1, increment=float(X[k + 1] - X[k]), expected=inc, column=[float(x) for x in X[:8]])
         res.nontrivial = events >= 1
     elif sub == "ode_rule":
         X = rows[:, col["X"]]
@@ -121,6 +122,10 @@ def check(case):
         res.nontrivial = events >= 1
     if events >= 1:
         res.label("reaction_events_between_rows")
+    if case.get("exhausts"):
+        res.label("reactions_run_out_mid_run")
+    if "increment" in case:
+        res.label("additive_rule_with_its_target_among_the_summands")
     if case.get("target") == "parameter":
         res.label("dt_or_ode_rule_on_a_parameter")
     return res
@@ -205,13 +210,21 @@ def schedule_case(draw, mode, grid):
     sub = draw(st.sampled_from(["scheduled", "dt_counter", "ode_rule"]))
     dyn = ["A", "B"]
     b = gen.Builder(draw, dyn + ["X"], named_params=False)
-    has_rx = _dynamics(b, draw, dyn)
+    exhaust = draw(st.integers(0, 4)) == 0
     dt = grid[1] - grid[0]
-    if has_rx:
+    if exhaust:
+        # reactions that run out part-way through the run: from then on the total propensity is exactly zero
+        b.reactions.append(gen.massaction(b, ["A"], [], k=float(f"{draw(st.sampled_from([0.5, 2.0, 8.0])) / dt:.6g}")))
+        has_rx = True
+    else:
+        has_rx = _dynamics(b, draw, dyn)
+    if has_rx and not exhaust:
         for rx in b.reactions:       # 0.1 .. 50 events per step
             rx["pd"]["k"] = float(f"{draw(gen.logfl(0.1, 50)) / dt / 10:.6g}")
     x0 = {"A": float(draw(st.integers(5, 20))), "B": float(draw(st.integers(0, 20))), "X": float(draw(st.integers(0, 5)))}
-    case = {"sub": sub, "dynamic": dyn if has_rx else []}
+    if exhaust:
+        x0["A"] = float(draw(st.integers(1, 6)))
+    case = {"sub": sub, "dynamic": dyn if has_rx else [], "exhausts": exhaust}
     if sub == "scheduled":
         T = grid[draw(st.integers(1, len(grid) - 2))]
         v = float(draw(st.integers(10, 99)))
@@ -226,6 +239,13 @@ def schedule_case(draw, mode, grid):
                             "tree": ["add", gen.sym("cnt"), gen.num(1)], "dest": "cnt"})
             b.rules.append({"type": "assignment", "eq": "X = cnt", "freq": "repeated", "tree": gen.sym("cnt"), "dest": "X"})
             case["target"] = "parameter"
+        elif draw(st.booleans()):
+            # the same counter written as an additive rule whose target is one of its own summands (B0 is a species
+            # that nothing changes; its value is the increment)
+            b.species.append("B0")
+            case["increment"] = float(draw(st.sampled_from([1.0, 2.0, 3.0])))
+            b.rules.append({"type": "additive", "eq": "X = X + B0", "freq": "dt", "tree": ["add", gen.sym("X"), gen.sym("B0")],
+                            "dest": "X"})
         else:
             tree = ["add", gen.sym("X"), gen.num(1)]
             b.rules.append({"type": "assignment", "eq": "X = X + 1", "freq": "dt", "tree": tree, "dest": "X"})
@@ -240,6 +260,8 @@ def schedule_case(draw, mode, grid):
         else:
             b.rules.append({"type": "ode", "eq": "rr", "target": "X", "freq": "dt", "tree": gen.sym("rr"), "dest": "X"})
         case["rate"] = rate
+    if "increment" in case:
+        x0["B0"] = case["increment"]
     case["spec"] = b.spec(x0)
     return case
 
